@@ -4706,7 +4706,7 @@ let sstep cfg s = function
 (** val client_MinRenewSeconds : z **)
 
 let client_MinRenewSeconds =
-  Zpos (XO (XO (XI (XO XH))))
+  Zpos (XO (XI (XO XH)))
 
 (** val client_RetryDelaySeconds : z **)
 
